@@ -19,9 +19,8 @@ VARIABLE l
 Init == l = 1
 Next == /\ l <= Len(Events)
         /\ LET e == Events[l] IN
-             \/ BnAccept(e)
-             \/ /\ BnKnown(e) # ""
-                /\ PrintT(<<"@@", "KF", BnKnown(e), e.i>>)
+             IF BnAccept(e) THEN TRUE
+             ELSE BnKnown(e) # "" /\ PrintT(<<"@@", "KF", BnKnown(e), e.i>>)
         /\ l' = l + 1
 Spec == Init /\ [][Next]_l
 Reached == PrintT(<<"@@", "REACHED", TLCGet("stats").diameter - 1>>)
